@@ -635,6 +635,36 @@ def ecm_search(rng, attempts, per_class=4):
         yield Case(f"{op} {p * q} {pt[0]} {pt[1]} {b1} {b2} {p} {l}", tag=f"ecm/{cls}")
 
 
+def divides_stage1(s_, b1):
+    """s_ divides the stage-1 exponent of P-1 / P+1 for b1: every prime <= b1, every prime power < b1"""
+    m = s_
+    for r in small_primes(b1):
+        cap = r
+        while cap * r < b1:
+            cap *= r
+        c = 1
+        while m % r == 0 and cap % (c * r) == 0:
+            m //= r
+            c *= r
+        if m % r == 0:
+            return False
+    return m == 1
+
+
+def pm1_annotation_ok(case):
+    n, b1, b2, p, l = (int(v) for v in case.args[:5])
+    return (n % p == 0 and is_prime(p) and is_prime(l) and l > b1 and (p - 1) % l == 0 and divides_stage1((p - 1) // l, b1)
+            and pow(2, (p - 1) // l, p) != 1)
+
+
+def pp1_annotation_ok(case):
+    n, seed, b1, b2, p, l = (int(v) for v in case.args[:6])
+    if is_prime(l) and l <= b1 and (p + 1) % l == 0 and divides_stage1(p + 1, b1):
+        return n % p == 0 and is_prime(p) and jacobi(seed * seed - 4, p) == -1          # fully smooth: found in stage 1
+    return (n % p == 0 and is_prime(p) and is_prime(l) and l > b1 and (p + 1) % l == 0 and divides_stage1((p + 1) // l, b1)
+            and jacobi(seed * seed - 4, p) == -1 and lucas_v(seed, (p + 1) // l, p) != 2)
+
+
 def ecm_annotation_ok(case):
     """the annotations of an ECM request, recomputed: p | n prime, order of the point mod p = s*l as claimed"""
     n, x, y, b1, b2, p, l = (int(v) for v in case.args[:7])
@@ -959,8 +989,9 @@ def oracle(case, ans):
         if msg:
             return msg
         req = required(case) if len(a) >= 5 else None
-        if req and op in ("s2_ecm", "s2_ecm128") and not ecm_annotation_ok(case):
-            return "test construction error: the claimed point order does not check"
+        if req and not {"s2_ecm": ecm_annotation_ok, "s2_ecm128": ecm_annotation_ok, "s2_pm1": pm1_annotation_ok,
+                        "s2_pp1": pp1_annotation_ok}[op](case):
+            return "test construction error: the claimed order structure does not check"
         if req:
             n, p, must = req
             r = parse_split(ans)
